@@ -509,12 +509,16 @@ func compactTxList(c *Ctx, r *Rng, k int) [][]byte {
 func genC08(c *Ctx) {
 	c.rule = "blob sequences (1-5 blobs, hot and random lengths, versions 0/1, equal and different namespaces) with namespace padding after blobs and reserved/tail padding around them; rendered by the real writers and parsed back; non-trivial = distinct item list containing a multi-share blob or padding"
 	r := c.rng
-	for i := 0; i < 220*c.scale; i++ {
+	for i := 0; i < 220*c.scale+60; i++ {
+		// the last 60 iterations: a version 1 blob, then - as the very last item, nothing behind it - a version 0
+		// blob that leaves 0..19 unused bytes in its last share (a capacity computed with the signer of the
+		// PREVIOUS sequence would be 20 bytes short)
+		special := i - 220*c.scale
 		nss := blobNamespaces(r, 3)
 		var items []string
 		var blobs []genBlob
 		nontriv := false
-		if r.Bool(30) {
+		if special < 0 && r.Bool(30) {
 			items = append(items, "r:"+strconv.Itoa(r.Intn(4)))
 		} else if r.Intn(8) == 0 {
 			// a request for ZERO namespace padding shares before anything is written (accepted, writes nothing)
@@ -525,8 +529,20 @@ func genC08(c *Ctx) {
 		if i < len(sparseHot)*2 {
 			k = 1
 		}
+		if special >= 0 {
+			k = 2
+		}
 		for j := 0; j < k; j++ {
 			g := randBlob(r, nss, 12000)
+			if special >= 0 {
+				if j == 0 {
+					g.ver, g.signer = 1, randSigner(r)
+					g.data = r.Bytes(1 + r.Intn(900))
+				} else {
+					g.ver, g.signer = 0, nil
+					g.data = r.Bytes(478 + 482*(special/20) - special%20)
+				}
+			}
 			if i < len(sparseHot)*2 {
 				g.data = r.Bytes(sparseHot[i/2])
 				g.ver = uint8(i % 2)
@@ -535,7 +551,7 @@ func genC08(c *Ctx) {
 					g.signer = randSigner(r)
 				}
 			}
-			if r.Intn(7) == 0 {
+			if special < 0 && r.Intn(7) == 0 {
 				// reserved or tail padding in FRONT of a blob (padding of any kind may sit on either side)
 				items = append(items, pick(r, []string{"t:", "r:"})+strconv.Itoa(1+r.Intn(3)))
 				c.count("padding_before_blob")
@@ -546,14 +562,17 @@ func genC08(c *Ctx) {
 			if len(g.data) > 458 {
 				nontriv = true
 			}
-			if r.Bool(50) {
+			if special < 0 && r.Bool(50) {
 				items = append(items, "n:"+strconv.Itoa(r.Intn(4)))
 				nontriv = true
 			}
 			c.count(fmt.Sprintf("blob_v%d", g.ver))
 		}
-		if r.Bool(40) {
+		if special < 0 && r.Bool(40) {
 			items = append(items, "t:"+strconv.Itoa(r.Intn(4)))
+		}
+		if special >= 0 {
+			c.count("v1_then_tight_v0_last")
 		}
 		arg := strings.Join(items, ",")
 		c.add("sparserr", arg)
@@ -958,6 +977,15 @@ func genC11(c *Ctx) {
 		{r.Bytes(470), r.Bytes(32769), r.Bytes(5)},                                    // same family, longer
 		{r.Bytes(470), r.Bytes(16386)},                                                // truncated prefix decodes to a small length
 		{r.Bytes(30), bytes.Repeat([]byte{1, 0x80, 2}, 900), r.Bytes(30), r.Bytes(3)}, // a tx covering 5+ shares of delimiter look-alikes
+		{r.Bytes(1500), r.Bytes(402), {0x07}, r.Bytes(40)},                            // a ONE-byte tx ending exactly on a share end
+	}
+	{
+		// 700 one-byte transactions: a unit ends on every share end
+		var ones [][]byte
+		for k := 0; k < 700; k++ {
+			ones = append(ones, []byte{byte(1 + k%250)})
+		}
+		corpus = append(corpus, ones)
 	}
 	// Go side only: very long units with the length prefix at a share end; sub-ranges around it
 	{
